@@ -785,3 +785,833 @@ Proof. reflexivity. Qed.
 
 Theorem table_self_match : table_matches handlers = true.
 Proof. vm_compute. reflexivity. Qed.
+
+(** * Changes of the designated principals *)
+
+(** ** The lookups of the guards after a change *)
+
+Lemma find_map_oracles : forall (mk : list (nat * list nat)) m l m',
+  match find (fun p => Nat.eqb (fst p) m') (map (fun p => if Nat.eqb (fst p) m then (fst p, l) else p) mk) with
+  | Some p => Some (snd p) | None => None end
+  = if Nat.eqb m' m
+    then match find (fun p => Nat.eqb (fst p) m) mk with Some _ => Some l | None => None end
+    else match find (fun p => Nat.eqb (fst p) m') mk with Some p => Some (snd p) | None => None end.
+Proof.
+  induction mk as [|[k os] r IH]; intros m l m'.
+  - cbn. destruct (Nat.eqb m' m); reflexivity.
+  - cbn [map find fst snd]. destruct (Nat.eqb k m) eqn:Ekm; cbn [fst snd find].
+    + apply Nat.eqb_eq in Ekm. subst k. destruct (Nat.eqb m m') eqn:E.
+      * apply Nat.eqb_eq in E. subst m'. rewrite Nat.eqb_refl. reflexivity.
+      * rewrite IH. rewrite (Nat.eqb_sym m' m), E. reflexivity.
+    + destruct (Nat.eqb k m') eqn:E.
+      * apply Nat.eqb_eq in E. subst m'. rewrite Ekm. reflexivity.
+      * rewrite IH. destruct (Nat.eqb m' m) eqn:E2; [|reflexivity]. reflexivity.
+Qed.
+
+Theorem set_oracles_lookup : forall s m l s' out,
+  set_oracles s m l = Ok s' out ->
+  forall m', oracles_of s' m' =
+    if Nat.eqb m' m then match oracles_of s m with Some _ => Some l | None => None end
+    else oracles_of s m'.
+Proof.
+  intros s m l s' out H m'. unfold set_oracles in H.
+  destruct (negb (nodup_b l)); [discriminate|]. inversion H; subst. clear H.
+  unfold oracles_of. cbn [markets set_markets]. rewrite find_map_oracles.
+  destruct (Nat.eqb m' m); [|reflexivity].
+  destruct (find (fun p => Nat.eqb (fst p) m) (markets s)); reflexivity.
+Qed.
+
+(* the other components are left alone *)
+Lemma set_oracles_frame : forall s m l s' out,
+  set_oracles s m l = Ok s' out ->
+  prices s' = prices s /\ assets s' = assets s /\ b3assets s' = b3assets s /\ committees s' = committees s /\
+  swaps s' = swaps s /\ proposals s' = proposals s /\ next_pid s' = next_pid s /\ votes s' = votes s.
+Proof.
+  intros s m l s' out H. unfold set_oracles in H.
+  destruct (negb (nodup_b l)); [discriminate|]. inversion H; subst. repeat split; reflexivity.
+Qed.
+
+Lemma find_com_map : forall (cs : list committee) c l c',
+  find (fun x => Nat.eqb (cm_id x) c')
+       (map (fun y => if Nat.eqb (cm_id y) c then mkCom (cm_id y) l (cm_member_type y) else y) cs)
+  = if Nat.eqb c' c
+    then match find (fun x => Nat.eqb (cm_id x) c) cs with
+         | Some y => Some (mkCom c l (cm_member_type y)) | None => None end
+    else find (fun x => Nat.eqb (cm_id x) c') cs.
+Proof.
+  induction cs as [|y r IH]; intros c l c'.
+  - cbn. destruct (Nat.eqb c' c); reflexivity.
+  - cbn [map find]. destruct (Nat.eqb (cm_id y) c) eqn:Eyc; cbn [cm_id find].
+    + apply Nat.eqb_eq in Eyc. destruct (Nat.eqb (cm_id y) c') eqn:E.
+      * apply Nat.eqb_eq in E. subst c'. rewrite <- Eyc. rewrite Nat.eqb_refl. reflexivity.
+      * rewrite IH. subst c. rewrite (Nat.eqb_sym c' (cm_id y)), E. reflexivity.
+    + destruct (Nat.eqb (cm_id y) c') eqn:E.
+      * apply Nat.eqb_eq in E. subst c'. rewrite Eyc. reflexivity.
+      * rewrite IH. destruct (Nat.eqb c' c); reflexivity.
+Qed.
+
+Lemma find_com_app_new : forall (cs : list committee) c x c',
+  find (fun y => Nat.eqb (cm_id y) c) cs = None -> cm_id x = c ->
+  find (fun y => Nat.eqb (cm_id y) c') (cs ++ [x])
+  = if Nat.eqb c' c then Some x else find (fun y => Nat.eqb (cm_id y) c') cs.
+Proof.
+  induction cs as [|y r IH]; intros c x c' Hn Hx.
+  - cbn. rewrite Hx, (Nat.eqb_sym c c'). destruct (Nat.eqb c' c); reflexivity.
+  - cbn [app find] in *. destruct (Nat.eqb (cm_id y) c) eqn:Eyc; [discriminate|].
+    destruct (Nat.eqb (cm_id y) c') eqn:E.
+    + apply Nat.eqb_eq in E. subst c'. rewrite Eyc. reflexivity.
+    + apply IH; assumption.
+Qed.
+
+Lemma find_com_filter : forall (cs : list committee) c c',
+  find (fun y => Nat.eqb (cm_id y) c') (filter (fun y => negb (Nat.eqb (cm_id y) c)) cs)
+  = if Nat.eqb c' c then None else find (fun y => Nat.eqb (cm_id y) c') cs.
+Proof.
+  induction cs as [|y r IH]; intros c c'.
+  - cbn. destruct (Nat.eqb c' c); reflexivity.
+  - cbn [filter find]. destruct (Nat.eqb (cm_id y) c) eqn:Eyc; cbn [negb find].
+    + rewrite IH. destruct (Nat.eqb c' c) eqn:E; [reflexivity|].
+      apply Nat.eqb_eq in Eyc. subst c. rewrite (Nat.eqb_sym (cm_id y) c'), E. reflexivity.
+    + destruct (Nat.eqb (cm_id y) c') eqn:E.
+      * apply Nat.eqb_eq in E. subst c'. rewrite Eyc. reflexivity.
+      * apply IH.
+Qed.
+
+Theorem set_members_lookup : forall s c l s' out,
+  set_members s c l = Ok s' out ->
+  (exists ty, find_com s' c = Some (mkCom c l ty)) /\
+  (forall c', c' <> c -> find_com s' c' = find_com s c') /\
+  proposals s' = closed_props s c /\ votes s' = closed_votes s c /\ next_pid s' = next_pid s /\
+  markets s' = markets s /\ assets s' = assets s /\ b3assets s' = b3assets s /\ swaps s' = swaps s.
+Proof.
+  intros s c l s' out H. unfold set_members in H.
+  destruct ((match l with [] => true | _ => false end) || negb (nodup_b l)); [discriminate|].
+  inversion H; subst. clear H. unfold find_com. cbn [committees set_coms].
+  destruct (find (fun x => Nat.eqb (cm_id x) c) (committees s)) as [y|] eqn:F.
+  - split; [|split].
+    + exists (cm_member_type y). rewrite find_com_map, Nat.eqb_refl, F. reflexivity.
+    + intros c' Hc. rewrite find_com_map, (neqb_false _ _ Hc). reflexivity.
+    + repeat split; reflexivity.
+  - split; [|split].
+    + exists true. rewrite (find_com_app_new (committees s) c (mkCom c l true) c F eq_refl), Nat.eqb_refl. reflexivity.
+    + intros c' Hc. rewrite (find_com_app_new (committees s) c (mkCom c l true) c' F eq_refl), (neqb_false _ _ Hc). reflexivity.
+    + repeat split; reflexivity.
+Qed.
+
+Theorem del_committee_lookup : forall s c s' out,
+  del_committee s c = Ok s' out ->
+  find_com s' c = None /\ (forall c', c' <> c -> find_com s' c' = find_com s c') /\
+  proposals s' = closed_props s c /\ votes s' = closed_votes s c /\ next_pid s' = next_pid s /\
+  markets s' = markets s /\ assets s' = assets s /\ b3assets s' = b3assets s /\ swaps s' = swaps s.
+Proof.
+  intros s c s' out H. unfold del_committee in H. inversion H; subst. clear H.
+  unfold find_com. cbn [committees set_coms]. split; [|split].
+  - rewrite find_com_filter, Nat.eqb_refl. reflexivity.
+  - intros c' Hc. rewrite find_com_filter, (neqb_false _ _ Hc). reflexivity.
+  - repeat split; reflexivity.
+Qed.
+
+Lemma find_asset_denom : forall s d x, find_asset s d = Some x -> as_denom x = d.
+Proof.
+  intros s d x H. unfold find_asset in H. apply find_some in H. destruct H as [_ H].
+  apply Nat.eqb_eq in H. exact H.
+Qed.
+
+Lemma find_put_asset : forall (l : list asset) x d,
+  find (fun y => Nat.eqb (as_denom y) d) (map (fun y => if Nat.eqb (as_denom y) (as_denom x) then x else y) l)
+  = if Nat.eqb d (as_denom x)
+    then match find (fun y => Nat.eqb (as_denom y) d) l with Some _ => Some x | None => None end
+    else find (fun y => Nat.eqb (as_denom y) d) l.
+Proof.
+  induction l as [|y r IH]; intros x d.
+  - cbn. destruct (Nat.eqb d (as_denom x)); reflexivity.
+  - cbn [map find]. destruct (Nat.eqb (as_denom y) (as_denom x)) eqn:Eyx.
+    + apply Nat.eqb_eq in Eyx. destruct (Nat.eqb (as_denom x) d) eqn:E.
+      * apply Nat.eqb_eq in E. rewrite Eyx, E, !Nat.eqb_refl. reflexivity.
+      * rewrite IH. rewrite Eyx, (Nat.eqb_sym d (as_denom x)), E. reflexivity.
+    + destruct (Nat.eqb (as_denom y) d) eqn:E.
+      * apply Nat.eqb_eq in E. subst d. rewrite Eyx. reflexivity.
+      * apply IH.
+Qed.
+
+Theorem set_owner_lookup : forall s d a s' out x,
+  set_owner s d a = Ok s' out -> find_asset s d = Some x ->
+  find_asset s' d = Some (with_owner x a) /\
+  (forall d', d' <> d -> find_asset s' d' = find_asset s d').
+Proof.
+  intros s d a s' out x H F. unfold set_owner in H. rewrite F in H.
+  destruct (mem a (as_blocked x)); [discriminate|]. inversion H; subst. clear H.
+  pose proof (find_asset_denom _ _ _ F) as Hd.
+  unfold find_asset, put_asset. cbn [assets set_assets]. split.
+  - rewrite find_put_asset. cbn [with_owner as_denom]. rewrite Hd, Nat.eqb_refl.
+    unfold find_asset in F. rewrite F. reflexivity.
+  - intros d' Hn. rewrite find_put_asset. cbn [with_owner as_denom]. rewrite Hd, (neqb_false _ _ Hn). reflexivity.
+Qed.
+
+Lemma find_b3_map : forall (l : list b3asset) d a d',
+  find (fun x => Nat.eqb (b3_denom x) d') (map (fun x => if Nat.eqb (b3_denom x) d then mkB3 (b3_denom x) a else x) l)
+  = if Nat.eqb d' d
+    then match find (fun x => Nat.eqb (b3_denom x) d) l with Some _ => Some (mkB3 d a) | None => None end
+    else find (fun x => Nat.eqb (b3_denom x) d') l.
+Proof.
+  induction l as [|y r IH]; intros d a d'.
+  - cbn. destruct (Nat.eqb d' d); reflexivity.
+  - cbn [map find]. destruct (Nat.eqb (b3_denom y) d) eqn:Eyd; cbn [b3_denom find].
+    + apply Nat.eqb_eq in Eyd. destruct (Nat.eqb (b3_denom y) d') eqn:E.
+      * apply Nat.eqb_eq in E. subst d'. rewrite <- Eyd, Nat.eqb_refl. reflexivity.
+      * rewrite IH. subst d. rewrite (Nat.eqb_sym d' (b3_denom y)), E. reflexivity.
+    + destruct (Nat.eqb (b3_denom y) d') eqn:E.
+      * apply Nat.eqb_eq in E. subst d'. rewrite Eyd. reflexivity.
+      * rewrite IH. destruct (Nat.eqb d' d); reflexivity.
+Qed.
+
+Theorem set_deputy_lookup : forall s d a s' out,
+  set_deputy s d a = Ok s' out ->
+  find_b3 s' d = (match find_b3 s d with Some _ => Some (mkB3 d a) | None => None end) /\
+  (forall d', d' <> d -> find_b3 s' d' = find_b3 s d') /\ swaps s' = swaps s.
+Proof.
+  intros s d a s' out H. unfold set_deputy in H. inversion H; subst. clear H.
+  unfold find_b3. cbn [b3assets set_b3 swaps]. split; [|split].
+  - rewrite find_b3_map, Nat.eqb_refl. reflexivity.
+  - intros d' Hn. rewrite find_b3_map, (neqb_false _ _ Hn). reflexivity.
+  - reflexivity.
+Qed.
+
+(** ** A principal removed by a change is refused by the next message, an added one is accepted *)
+
+(* whatever the removed oracle has posted before: [prices] is not consulted *)
+Theorem removed_oracle_refused : forall e s m l s' out b p x,
+  admin_step e s (SetOracles m l) = Ok s' out -> ~ In b l -> step e s' (PostPrice b m p x) = Err.
+Proof.
+  intros e s m l s' out b p x H Hn. cbn [admin_step] in H.
+  apply post_price_requires_oracle. intros os Ho.
+  rewrite (set_oracles_lookup _ _ _ _ _ H m), Nat.eqb_refl in Ho.
+  destruct (oracles_of s m); inversion Ho; subst. exact Hn.
+Qed.
+
+Theorem added_oracle_accepted : forall e s m l s' out b p x,
+  admin_step e s (SetOracles m l) = Ok s' out -> oracles_of s m <> None -> In b l -> now e < x ->
+  exists s'', step e s' (PostPrice b m p x) = Ok s'' [].
+Proof.
+  intros e s m l s' out b p x H Hm Hb Hx. cbn [admin_step] in H.
+  cbn [step]. unfold post_price.
+  rewrite (set_oracles_lookup _ _ _ _ _ H m), Nat.eqb_refl.
+  destruct (oracles_of s m); [|contradiction].
+  apply mem_In in Hb. rewrite Hb. cbn [negb].
+  apply Z.leb_gt in Hx. rewrite Hx. eexists. reflexivity.
+Qed.
+
+(* the oracle lists of the other markets are not touched *)
+Theorem other_markets_keep_oracles : forall e s m l s' out m',
+  admin_step e s (SetOracles m l) = Ok s' out -> m' <> m -> oracles_of s' m' = oracles_of s m'.
+Proof.
+  intros e s m l s' out m' H Hn. cbn [admin_step] in H.
+  rewrite (set_oracles_lookup _ _ _ _ _ H m'), (neqb_false _ _ Hn). reflexivity.
+Qed.
+
+Theorem removed_member_refused : forall e s c l s' out b,
+  admin_step e s (SetMembers c l) = Ok s' out -> ~ In b l ->
+  (forall dur rest, step e s' (Submit b c dur rest) = Err) /\
+  (forall pid vt dl, proposals s' pid = Some (c, dl) ->
+     (exists x, find_com s' c = Some x /\ cm_member_type x = true) -> step e s' (Vote b pid vt) = Err).
+Proof.
+  intros e s c l s' out b H Hn. cbn [admin_step] in H.
+  destruct (set_members_lookup _ _ _ _ _ H) as [[ty F] _]. split.
+  - intros dur rest. apply submit_requires_member. intros x Fx. rewrite F in Fx. inversion Fx; subst. exact Hn.
+  - intros pid vt dl Hp [x [Fx Ht]]. rewrite F in Fx. inversion Fx; subst x.
+    apply (member_vote_requires_member e s' b pid vt c dl _ Hp F Ht). exact Hn.
+Qed.
+
+(* the committee's open proposals are closed by the change: nobody votes on them any more *)
+Theorem member_change_closes_proposals : forall e s c l s' out pid dl,
+  (admin_step e s (SetMembers c l) = Ok s' out \/ admin_step e s (DelCommittee c) = Ok s' out) ->
+  proposals s pid = Some (c, dl) ->
+  proposals s' pid = None /\ (forall a, votes s' pid a = None) /\ forall b vt, step e s' (Vote b pid vt) = Err.
+Proof.
+  intros e s c l s' out pid dl H Hp. cbn [admin_step] in H.
+  assert (HH : proposals s' = closed_props s c /\ votes s' = closed_votes s c).
+  { destruct H as [H|H].
+    - destruct (set_members_lookup _ _ _ _ _ H) as [_ [_ [P [V _]]]]. auto.
+    - destruct (del_committee_lookup _ _ _ _ H) as [_ [_ [P [V _]]]]. auto. }
+  destruct HH as [P V].
+  assert (Pn : proposals s' pid = None).
+  { rewrite P. unfold closed_props. rewrite Hp, Nat.eqb_refl. reflexivity. }
+  split; [exact Pn|]. split.
+  - intros a. rewrite V. unfold closed_votes. rewrite Hp, Nat.eqb_refl. reflexivity.
+  - intros b vt. cbn [step]. unfold vote. rewrite Pn. reflexivity.
+Qed.
+
+Theorem added_member_accepted : forall e s c l s' out b dur,
+  admin_step e s (SetMembers c l) = Ok s' out -> In b l ->
+  exists s'', step e s' (Submit b c dur true) = Ok s'' [].
+Proof.
+  intros e s c l s' out b dur H Hb. cbn [admin_step] in H.
+  destruct (set_members_lookup _ _ _ _ _ H) as [[ty F] _].
+  cbn [step]. unfold submit. rewrite F. cbn [cm_members].
+  apply mem_In in Hb. rewrite Hb. cbn [negb]. eexists. reflexivity.
+Qed.
+
+Theorem deleted_committee_refuses_all : forall e s c s' out b dur rest,
+  admin_step e s (DelCommittee c) = Ok s' out -> step e s' (Submit b c dur rest) = Err.
+Proof.
+  intros e s c s' out b dur rest H. cbn [admin_step] in H.
+  destruct (del_committee_lookup _ _ _ _ H) as [F _].
+  apply submit_requires_member. intros x Fx. rewrite F in Fx. discriminate.
+Qed.
+
+Theorem former_owner_refused : forall e s d a s' out b,
+  admin_step e s (SetOwner d a) = Ok s' out -> find_asset s d <> None -> b <> a ->
+  (forall amt rcv, step e s' (Issue b d amt rcv) = Err) /\
+  (forall amt, step e s' (Redeem b d amt) = Err) /\
+  (forall c, step e s' (Block b d c) = Err) /\
+  (forall c, step e s' (Unblock b d c) = Err) /\
+  (forall st, step e s' (SetPause b d st) = Err).
+Proof.
+  intros e s d a s' out b H Hf Hb. cbn [admin_step] in H.
+  destruct (find_asset s d) as [x|] eqn:F; [|contradiction].
+  destruct (set_owner_lookup _ _ _ _ _ _ H F) as [F' _].
+  apply issuance_requires_owner. intros y Fy. rewrite F' in Fy. inversion Fy; subst. cbn. exact Hb.
+Qed.
+
+Theorem new_owner_is_principal : forall e s d a s' out,
+  admin_step e s (SetOwner d a) = Ok s' out -> find_asset s d <> None ->
+  forall st, authorised e s' (SetPause a d st) = true /\ exists s'', step e s' (SetPause a d st) = Ok s'' [].
+Proof.
+  intros e s d a s' out H Hf st. cbn [admin_step] in H.
+  destruct (find_asset s d) as [x|] eqn:F; [|contradiction].
+  destruct (set_owner_lookup _ _ _ _ _ _ H F) as [F' _].
+  cbn [authorised step]. unfold set_pause. rewrite F'. cbn [with_owner as_owner as_paused].
+  rewrite Nat.eqb_refl. split; [reflexivity|]. cbn [negb].
+  destruct (Bool.eqb (as_paused x) st); eexists; reflexivity.
+Qed.
+
+(* after a change of the deputy an incoming swap comes from the new deputy only *)
+Theorem former_deputy_refused : forall e s d a s' out b rcp amt rest,
+  admin_step e s (SetDeputy d a) = Ok s' out -> b <> a -> rcp <> a ->
+  step e s' (CreateSwap b rcp [(d, amt)] rest) = Err.
+Proof.
+  intros e s d a s' out b rcp amt rest H Hb Hr. cbn [admin_step] in H.
+  destruct (set_deputy_lookup _ _ _ _ _ H) as [F _].
+  apply incoming_swap_requires_deputy. intros x Fx. rewrite F in Fx.
+  destruct (find_b3 s d); inversion Fx; subst. cbn. auto.
+Qed.
+
+Theorem new_deputy_sends_incoming : forall e s d a s' out rcp amt s'' out',
+  admin_step e s (SetDeputy d a) = Ok s' out ->
+  step e s' (CreateSwap a rcp [(d, amt)] true) = Ok s'' out' ->
+  swaps s'' = mkSwap a rcp d amt true :: swaps s.
+Proof.
+  intros e s d a s' out rcp amt s'' out' H H2. cbn [admin_step] in H.
+  destruct (set_deputy_lookup _ _ _ _ _ H) as [F [_ Sw]].
+  destruct (create_swap_direction _ _ _ _ _ _ _ _ _ H2) as [x [Fx [[_ [_ E]]|[Hn _]]]].
+  - rewrite E, Sw. reflexivity.
+  - rewrite F in Fx. destruct (find_b3 s d); inversion Fx; subst. cbn in Hn. contradiction.
+Qed.
+
+(** ** Messages never change who the principals are *)
+
+Definition owner_of (s : state) (d : nat) : option nat :=
+  match find_asset s d with Some x => Some (as_owner x) | None => None end.
+
+Lemma owner_of_put : forall s x y d,
+  find_asset s (as_denom x) = Some y -> as_owner x = as_owner y -> as_denom x = as_denom y ->
+  owner_of (put_asset s x) d = owner_of s d.
+Proof.
+  intros s x y d F Ho Hd. unfold owner_of, find_asset, put_asset. cbn [assets set_assets].
+  rewrite find_put_asset. destruct (Nat.eqb d (as_denom x)) eqn:E; [|reflexivity].
+  apply Nat.eqb_eq in E. subst d. unfold find_asset in F. rewrite F, Ho. reflexivity.
+Qed.
+
+Definition same_principals (s s' : state) : Prop :=
+  markets s' = markets s /\ b3assets s' = b3assets s /\ committees s' = committees s /\
+  forall d, owner_of s' d = owner_of s d.
+
+Lemma same_principals_refl : forall s, same_principals s s.
+Proof. intros s. repeat split; reflexivity. Qed.
+
+Lemma same_principals_trans : forall s1 s2 s3,
+  same_principals s1 s2 -> same_principals s2 s3 -> same_principals s1 s3.
+Proof.
+  intros s1 s2 s3 [A1 [A2 [A3 A4]]] [B1 [B2 [B3 B4]]]. repeat split; try congruence; intros d; rewrite B4; apply A4.
+Qed.
+
+Ltac sp_trivial := repeat split; reflexivity.
+
+Lemma strategy_withdraw_principals : forall e s d amt s1,
+  strategy_withdraw e s d amt = Some s1 -> same_principals s s1.
+Proof.
+  intros e s d amt s1 H. unfold strategy_withdraw in H.
+  destruct (amt <=? 0); [inversion H; subst; apply same_principals_refl|].
+  destruct (Nat.eqb (earn_strat e d) 0).
+  - unfold hard_withdraw in H.
+    repeat match type of H with match (if ?c then _ else _) with _ => _ end = _ => destruct c; [discriminate|] end.
+    inversion H; subst. sp_trivial.
+  - unfold sav_withdraw in H.
+    repeat match type of H with match (if ?c then _ else _) with _ => _ end = _ => destruct c; [discriminate|] end.
+    inversion H; subst. sp_trivial.
+Qed.
+
+Theorem messages_keep_principals : forall e s o s' out, step e s o = Ok s' out -> same_principals s s'.
+Proof.
+  intros e s o s' out H. destruct o; cbn [step] in H.
+  - unfold post_price in H.
+    destruct (oracles_of s m); [|discriminate]. destruct (negb (mem a l)); [discriminate|].
+    destruct (expiry <=? now e); [discriminate|]. inversion H; subst. sp_trivial.
+  - unfold issue in H. destruct (find_asset s d); [|discriminate].
+    repeat match type of H with (if ?c then _ else _) = _ => destruct c; [discriminate|] end.
+    inversion H; subst. sp_trivial.
+  - unfold redeem in H. destruct (find_asset s d); [|discriminate].
+    repeat match type of H with (if ?c then _ else _) = _ => destruct c; [discriminate|] end.
+    inversion H; subst. sp_trivial.
+  - unfold block in H. destruct (find_asset s d) as [x|] eqn:F; [|discriminate].
+    repeat match type of H with (if ?c then _ else _) = _ => destruct c; [discriminate|] end.
+    inversion H; subst. pose proof (find_asset_denom _ _ _ F) as Hd.
+    repeat split; try reflexivity. intros d0.
+    apply (owner_of_put s (with_blocked x (as_blocked x ++ [b])) x d0); cbn; try reflexivity.
+    rewrite Hd. exact F.
+  - unfold unblock in H. destruct (find_asset s d) as [x|] eqn:F; [|discriminate].
+    repeat match type of H with (if ?c then _ else _) = _ => destruct c; [discriminate|] end.
+    inversion H; subst. pose proof (find_asset_denom _ _ _ F) as Hd.
+    repeat split; try reflexivity. intros d0.
+    apply (owner_of_put s (with_blocked x (remove_blocked b (as_blocked x))) x d0); cbn; try reflexivity.
+    rewrite Hd. exact F.
+  - unfold set_pause in H. destruct (find_asset s d) as [x|] eqn:F; [|discriminate].
+    destruct (negb (Nat.eqb a (as_owner x))); [discriminate|].
+    destruct (Bool.eqb (as_paused x) st); inversion H; subst; [apply same_principals_refl|].
+    pose proof (find_asset_denom _ _ _ F) as Hd.
+    repeat split; try reflexivity. intros d0.
+    apply (owner_of_put s (with_paused x (negb (as_paused x))) x d0); cbn; try reflexivity.
+    rewrite Hd. exact F.
+  - unfold create_swap_msg in H. destruct amount as [|[d amt] [|c r]]; try discriminate.
+    unfold create_swap in H. destruct (is_macc e rcp); [discriminate|].
+    destruct (find_b3 s d); [|discriminate].
+    destruct (Nat.eqb a (b3_deputy b)); destruct (Nat.eqb rcp (b3_deputy b)); cbn [negb] in H; try discriminate;
+      destruct rest; cbn [negb] in H; try discriminate; inversion H; subst; sp_trivial.
+  - unfold submit in H. destruct (find_com s c); [|discriminate].
+    repeat match type of H with (if ?c then _ else _) = _ => destruct c; [discriminate|] end.
+    inversion H; subst. sp_trivial.
+  - unfold vote in H. destruct (proposals s pid) as [[c dl]|]; [|discriminate].
+    destruct (dl <=? now e); [discriminate|]. destruct (find_com s c); [|discriminate].
+    repeat match type of H with (if ?c then _ else _) = _ => destruct c; [discriminate|] end.
+    inversion H; subst. sp_trivial.
+  - unfold update_params in H. destruct (negb (Nat.eqb a (gov e))); [discriminate|].
+    destruct p as [[t r1] r2]. destruct ((r1 <? 0) || (r2 <? 0)); [discriminate|].
+    inversion H; subst. sp_trivial.
+  - unfold cdp_draw in H. destruct (find_cdp s a ct) as [[i c]|]; [|discriminate].
+    destruct rest; [|discriminate]. inversion H; subst. sp_trivial.
+  - unfold cdp_repay in H. destruct (find_cdp s a ct) as [[i c]|]; [|discriminate].
+    destruct rest; [|discriminate]. cbn [negb] in H.
+    destruct (cd_princ c - Z.min amt (cd_princ c) =? 0); inversion H; subst; sp_trivial.
+  - unfold cdp_withdraw in H. destruct (find_cdp s owner ct) as [[i c]|]; [|discriminate].
+    repeat match type of H with (if ?c then _ else _) = _ => destruct c; [discriminate|] end.
+    inversion H; subst. sp_trivial.
+  - unfold hard_withdraw in H.
+    repeat match type of H with (if ?c then _ else _) = _ => destruct c; [discriminate|] end.
+    inversion H; subst. sp_trivial.
+  - unfold sav_withdraw in H.
+    repeat match type of H with (if ?c then _ else _) = _ => destruct c; [discriminate|] end.
+    inversion H; subst. sp_trivial.
+  - unfold swap_withdraw in H.
+    destruct (negb deadline_ok); [discriminate|].
+    destruct (swap_shares s a pool <=? 0); [discriminate|].
+    destruct (swap_shares s a pool <? shares); [discriminate|].
+    destruct (swap_pools s pool) as [[ra rb] tot].
+    repeat match type of H with (if ?c then _ else _) = _ => destruct c; [discriminate|] end.
+    inversion H; subst. sp_trivial.
+  - unfold earn_withdraw in H.
+    repeat match type of H with (if ?c then _ else _) = _ => destruct c; [discriminate|] end.
+    destruct (strategy_withdraw e s d wamount) as [s1|] eqn:SW; [|discriminate].
+    pose proof (strategy_withdraw_principals _ _ _ _ _ SW) as [A1 [A2 [A3 A4]]].
+    inversion H; subst. repeat split; cbn; try assumption;
+      intros d0; specialize (A4 d0); unfold owner_of, find_asset in *; cbn; exact A4.
+Qed.
+
+Lemma run_keeps_principals : forall e ops s, same_principals s (run e s ops).
+Proof.
+  intros e ops. induction ops as [|o r IH]; intros s; [apply same_principals_refl|].
+  cbn [run fold_left]. apply (same_principals_trans s (step' e s o)); [|apply IH].
+  unfold step'. destruct (step e s o) as [s1 out| |] eqn:E; try apply same_principals_refl.
+  exact (messages_keep_principals _ _ _ _ _ E).
+Qed.
+
+(* authorisation for the five list-guarded kinds of message depends on the lists only *)
+Lemma oracles_of_same : forall s s' m, markets s' = markets s -> oracles_of s' m = oracles_of s m.
+Proof. intros s s' m H. unfold oracles_of. rewrite H. reflexivity. Qed.
+
+(** ** All histories: messages and changes of principals in any order *)
+
+Lemma hrun_app : forall e hs1 hs2 s, hrun e s (hs1 ++ hs2) = hrun e (hrun e s hs1) hs2.
+Proof. intros e hs1 hs2 s. unfold hrun. apply fold_left_app. Qed.
+
+Lemma hrun_msgs : forall e ops s, hrun e s (map Msg ops) = run e s ops.
+Proof.
+  intros e ops. induction ops as [|o r IH]; intros s; [reflexivity|].
+  cbn [map hrun run fold_left]. exact (IH (step' e s o)).
+Qed.
+
+(* the decision is taken on the lists of the state the message arrives in, whatever came before *)
+Theorem wrong_signer_rejected_all_histories : forall e hs s o,
+  authorised e (hrun e s hs) o = false -> step e (hrun e s hs) o = Err.
+Proof. intros e hs s o. apply unauthorised_rejected. Qed.
+
+(* after any history, a change that removes an oracle, and any further messages:
+   the removed oracle is refused *)
+Theorem removed_oracle_refused_all_histories : forall e s hs m l ops b p x,
+  nodup_b l = true -> ~ In b l ->
+  step e (hrun e s (hs ++ Adm (SetOracles m l) :: map Msg ops)) (PostPrice b m p x) = Err.
+Proof.
+  intros e s hs m l ops b p x Hd Hn.
+  rewrite hrun_app. set (s1 := hrun e s hs). cbn [hrun fold_left]. fold (hrun e (hstep' e s1 (Adm (SetOracles m l))) (map Msg ops)).
+  rewrite hrun_msgs.
+  assert (H : admin_step e s1 (SetOracles m l) =
+              Ok (hstep' e s1 (Adm (SetOracles m l))) []).
+  { unfold hstep'. cbn [hstep admin_step]. unfold set_oracles. rewrite Hd. reflexivity. }
+  set (s2 := hstep' e s1 (Adm (SetOracles m l))) in *.
+  apply post_price_requires_oracle. intros os Ho.
+  destruct (run_keeps_principals e ops s2) as [Mk _].
+  rewrite (oracles_of_same _ _ m Mk) in Ho.
+  rewrite (set_oracles_lookup _ _ _ _ _ H m), Nat.eqb_refl in Ho.
+  destruct (oracles_of s1 m); inversion Ho; subst. exact Hn.
+Qed.
+
+Lemma find_com_same' : forall s s' c, committees s' = committees s -> find_com s' c = find_com s c.
+Proof. intros s s' c H. unfold find_com. rewrite H. reflexivity. Qed.
+
+Theorem removed_member_refused_all_histories : forall e s hs c l ops b dur rest,
+  l <> [] -> nodup_b l = true -> ~ In b l ->
+  step e (hrun e s (hs ++ Adm (SetMembers c l) :: map Msg ops)) (Submit b c dur rest) = Err.
+Proof.
+  intros e s hs c l ops b dur rest Hl Hd Hn.
+  rewrite hrun_app. set (s1 := hrun e s hs). cbn [hrun fold_left]. fold (hrun e (hstep' e s1 (Adm (SetMembers c l))) (map Msg ops)).
+  rewrite hrun_msgs.
+  assert (H : exists out, admin_step e s1 (SetMembers c l) = Ok (hstep' e s1 (Adm (SetMembers c l))) out).
+  { unfold hstep'. cbn [hstep admin_step]. unfold set_members. rewrite Hd.
+    destruct l; [contradiction|]. cbn [orb negb]. eexists. reflexivity. }
+  destruct H as [out H]. set (s2 := hstep' e s1 (Adm (SetMembers c l))) in *.
+  cbn [admin_step] in H. destruct (set_members_lookup _ _ _ _ _ H) as [[ty F] _].
+  apply submit_requires_member. intros x Fx.
+  destruct (run_keeps_principals e ops s2) as [_ [_ [Cm _]]].
+  rewrite (find_com_same' _ _ c Cm), F in Fx. inversion Fx; subst. exact Hn.
+Qed.
+
+Theorem former_owner_refused_all_histories : forall e s hs d a ops b st,
+  let s1 := hrun e s hs in
+  (forall x, find_asset s1 d = Some x -> mem a (as_blocked x) = false) -> b <> a ->
+  step e (hrun e s (hs ++ Adm (SetOwner d a) :: map Msg ops)) (SetPause b d st) = Err.
+Proof.
+  intros e s hs d a ops b st s1 Hbl Hb.
+  rewrite hrun_app. fold s1. cbn [hrun fold_left]. fold (hrun e (hstep' e s1 (Adm (SetOwner d a))) (map Msg ops)).
+  rewrite hrun_msgs. set (s2 := hstep' e s1 (Adm (SetOwner d a))).
+  apply unauthorised_rejected. cbn [authorised].
+  destruct (run_keeps_principals e ops s2) as [_ [_ [_ Ow]]]. specialize (Ow d). unfold owner_of in Ow.
+  destruct (find_asset (run e s2 ops) d) as [y|] eqn:Fy; [|reflexivity].
+  destruct (find_asset s2 d) as [z|] eqn:Fz; [|discriminate]. inversion Ow as [Eo]. rewrite Eo.
+  destruct (find_asset s1 d) as [x|] eqn:F.
+  - assert (H : admin_step e s1 (SetOwner d a) = Ok s2 []).
+    { unfold s2, hstep'. cbn [hstep admin_step]. unfold set_owner. rewrite F, (Hbl x eq_refl). reflexivity. }
+    cbn [admin_step] in H. destruct (set_owner_lookup _ _ _ _ _ _ H F) as [F' _].
+    rewrite F' in Fz. inversion Fz; subst z. cbn. apply neqb_false. exact Hb.
+  - exfalso. unfold s2, hstep' in Fz. cbn [hstep admin_step] in Fz. unfold set_owner in Fz. rewrite F in Fz.
+    rewrite F in Fz. discriminate.
+Qed.
+
+(* all five issuance messages, over all histories *)
+Theorem former_owner_refused_all_messages_all_histories : forall e s hs d a ops b,
+  (forall x, find_asset (hrun e s hs) d = Some x -> mem a (as_blocked x) = false) -> b <> a ->
+  let s3 := hrun e s (hs ++ Adm (SetOwner d a) :: map Msg ops) in
+  (forall amt rcv, step e s3 (Issue b d amt rcv) = Err) /\
+  (forall amt, step e s3 (Redeem b d amt) = Err) /\
+  (forall c, step e s3 (Block b d c) = Err) /\
+  (forall c, step e s3 (Unblock b d c) = Err) /\
+  (forall st, step e s3 (SetPause b d st) = Err).
+Proof.
+  intros e s hs d a ops b Hbl Hb s3. apply issuance_requires_owner. intros x Fx Hbx.
+  pose proof (former_owner_refused_all_histories e s hs d a ops b true Hbl Hb) as E.
+  fold s3 in E. cbn [step] in E. unfold set_pause in E. rewrite Fx in E. subst b.
+  rewrite Nat.eqb_refl in E. cbn [negb] in E. destruct (Bool.eqb (as_paused x) true); discriminate.
+Qed.
+
+Lemma find_b3_same' : forall s s' d, b3assets s' = b3assets s -> find_b3 s' d = find_b3 s d.
+Proof. intros s s' d H. unfold find_b3. rewrite H. reflexivity. Qed.
+
+Theorem former_deputy_refused_all_histories : forall e s hs d a ops b rcp amt rest,
+  b <> a -> rcp <> a ->
+  step e (hrun e s (hs ++ Adm (SetDeputy d a) :: map Msg ops)) (CreateSwap b rcp [(d, amt)] rest) = Err.
+Proof.
+  intros e s hs d a ops b rcp amt rest Hb Hr.
+  rewrite hrun_app. set (s1 := hrun e s hs). cbn [hrun fold_left]. fold (hrun e (hstep' e s1 (Adm (SetDeputy d a))) (map Msg ops)).
+  rewrite hrun_msgs. set (s2 := hstep' e s1 (Adm (SetDeputy d a))).
+  assert (H : admin_step e s1 (SetDeputy d a) = Ok s2 []) by reflexivity.
+  cbn [admin_step] in H. destruct (set_deputy_lookup _ _ _ _ _ H) as [F _].
+  apply incoming_swap_requires_deputy. intros x Fx.
+  destruct (run_keeps_principals e ops s2) as [_ [B3 _]].
+  rewrite (find_b3_same' _ _ d B3), F in Fx.
+  destruct (find_b3 s1 d); inversion Fx; subst. cbn. auto.
+Qed.
+
+(** ** The vote invariant over histories with changes of principals *)
+
+Record VInv (e : env) (s : state) : Prop := {
+  vinv_votes : forall pid a vt, votes s pid a = Some vt ->
+     exists c dl x, proposals s pid = Some (c, dl) /\ find_com s c = Some x /\
+       (cm_member_type x = true -> In a (cm_members x) /\ vt = 1%nat);
+  vinv_props : forall pid p, proposals s pid = Some p -> (pid < next_pid s)%nat;
+  vinv_fresh : forall pid a, (next_pid s <= pid)%nat -> votes s pid a = None
+}.
+
+Lemma Inv_VInv : forall e s, Inv e s -> VInv e s.
+Proof. intros e s [I1 I2 I3 I4]. constructor; assumption. Qed.
+
+Lemma vinv_frame : forall e s s',
+  VInv e s -> committees s' = committees s ->
+  proposals s' = proposals s -> next_pid s' = next_pid s -> votes s' = votes s -> VInv e s'.
+Proof.
+  intros e s s' [I2 I3 I4] Hc Hp Hn Hv. constructor.
+  - intros pid a vt H. rewrite Hv in H. destruct (I2 pid a vt H) as [c [dl [x [P [F M]]]]].
+    exists c, dl, x. rewrite Hp, (find_com_same' s s') by assumption. auto.
+  - intros pid p H. rewrite Hp in H. rewrite Hn. exact (I3 pid p H).
+  - intros pid a H. rewrite Hn in H. rewrite Hv. exact (I4 pid a H).
+Qed.
+
+Ltac vframe_tac I := apply (vinv_frame _ _ _ I); reflexivity.
+
+Lemma strategy_withdraw_vframe : forall e s d amt s1,
+  strategy_withdraw e s d amt = Some s1 ->
+  committees s1 = committees s /\ proposals s1 = proposals s /\ next_pid s1 = next_pid s /\ votes s1 = votes s.
+Proof.
+  intros e s d amt s1 H.
+  destruct (strategy_withdraw_frame _ _ _ _ _ H) as [_ [_ [A [_ [B [C D]]]]]]. auto.
+Qed.
+
+Theorem step_vinv : forall e s o s' out, VInv e s -> step e s o = Ok s' out -> VInv e s'.
+Proof.
+  intros e s o s' out I H. destruct o; cbn [step] in H.
+  - unfold post_price in H.
+    destruct (oracles_of s m); [|discriminate]. destruct (negb (mem a l)); [discriminate|].
+    destruct (expiry <=? now e); [discriminate|]. inversion H; subst. vframe_tac I.
+  - unfold issue in H. destruct (find_asset s d); [|discriminate].
+    repeat match type of H with (if ?c then _ else _) = _ => destruct c; [discriminate|] end.
+    inversion H; subst. vframe_tac I.
+  - unfold redeem in H. destruct (find_asset s d); [|discriminate].
+    repeat match type of H with (if ?c then _ else _) = _ => destruct c; [discriminate|] end.
+    inversion H; subst. vframe_tac I.
+  - unfold block in H. destruct (find_asset s d); [|discriminate].
+    repeat match type of H with (if ?c then _ else _) = _ => destruct c; [discriminate|] end.
+    inversion H; subst. vframe_tac I.
+  - unfold unblock in H. destruct (find_asset s d); [|discriminate].
+    repeat match type of H with (if ?c then _ else _) = _ => destruct c; [discriminate|] end.
+    inversion H; subst. vframe_tac I.
+  - unfold set_pause in H. destruct (find_asset s d); [|discriminate].
+    destruct (negb (Nat.eqb a (as_owner a0))); [discriminate|].
+    destruct (Bool.eqb (as_paused a0) st); inversion H; subst; [exact I | vframe_tac I].
+  - unfold create_swap_msg in H. destruct amount as [|[d amt] [|c r]]; try discriminate.
+    unfold create_swap in H. destruct (is_macc e rcp); [discriminate|].
+    destruct (find_b3 s d); [|discriminate].
+    destruct (Nat.eqb a (b3_deputy b)); destruct (Nat.eqb rcp (b3_deputy b)); cbn [negb] in H; try discriminate;
+      destruct rest; cbn [negb] in H; try discriminate; inversion H; subst; vframe_tac I.
+  - unfold submit in H. destruct (find_com s c) as [x|] eqn:F; [|discriminate].
+    destruct (negb (mem a (cm_members x))); [discriminate|]. destruct rest; [|discriminate]. cbn [negb] in H.
+    inversion H; subst. clear H. destruct I as [I2 I3 I4]. constructor; cbn.
+    + intros pid v vt Hvt. destruct (I2 pid v vt Hvt) as [c0 [dl [y [P [Fc M]]]]].
+      exists c0, dl, y. split; [|split; [exact Fc | exact M]].
+      rewrite upd_other; [exact P|]. intro Eq. subst pid.
+      rewrite (I4 (next_pid s) v (Nat.le_refl _)) in Hvt. discriminate.
+    + intros pid p Hpp. unfold upd in Hpp. destruct (Nat.eqb pid (next_pid s)) eqn:E.
+      * apply Nat.eqb_eq in E. lia.
+      * specialize (I3 pid p Hpp). lia.
+    + intros pid v Hpid. apply I4. lia.
+  - unfold vote in H. destruct (proposals s pid) as [[c dl]|] eqn:P; [|discriminate].
+    destruct (dl <=? now e); [discriminate|].
+    destruct (find_com s c) as [x|] eqn:F; [|discriminate].
+    destruct (cm_member_type x && negb (mem a (cm_members x))) eqn:G1; [discriminate|].
+    destruct (cm_member_type x && negb (Nat.eqb vt 1)) eqn:G2; [discriminate|].
+    inversion H; subst. clear H. destruct I as [I2 I3 I4]. constructor; cbn.
+    + intros pid' v vt' Hvt. unfold upd2 in Hvt.
+      destruct (Nat.eqb pid' pid && Nat.eqb v a) eqn:E.
+      * apply andb_true_iff in E. destruct E as [E1 E2].
+        apply Nat.eqb_eq in E1. apply Nat.eqb_eq in E2. subst pid' v. inversion Hvt; subst vt'.
+        exists c, dl, x. split; [exact P|]. split; [exact F|]. intros Hm.
+        rewrite Hm in G1, G2. cbn [andb] in G1, G2. split.
+        -- apply negb_false_iff in G1. apply mem_In. exact G1.
+        -- apply negb_false_iff in G2. apply Nat.eqb_eq. exact G2.
+      * exact (I2 pid' v vt' Hvt).
+    + exact I3.
+    + intros pid' v Hpid. unfold upd2.
+      destruct (Nat.eqb pid' pid && Nat.eqb v a) eqn:E; [|exact (I4 pid' v Hpid)].
+      apply andb_true_iff in E. destruct E as [E1 _]. apply Nat.eqb_eq in E1. subst pid'.
+      specialize (I3 pid _ P). lia.
+  - unfold update_params in H. destruct (negb (Nat.eqb a (gov e))); [discriminate|].
+    destruct p as [[t r1] r2]. destruct ((r1 <? 0) || (r2 <? 0)); [discriminate|].
+    inversion H; subst. vframe_tac I.
+  - unfold cdp_draw in H. destruct (find_cdp s a ct) as [[i c]|]; [|discriminate].
+    destruct rest; [|discriminate]. inversion H; subst. vframe_tac I.
+  - unfold cdp_repay in H. destruct (find_cdp s a ct) as [[i c]|]; [|discriminate].
+    destruct rest; [|discriminate]. cbn [negb] in H.
+    destruct (cd_princ c - Z.min amt (cd_princ c) =? 0); inversion H; subst; vframe_tac I.
+  - unfold cdp_withdraw in H. destruct (find_cdp s owner ct) as [[i c]|]; [|discriminate].
+    repeat match type of H with (if ?c then _ else _) = _ => destruct c; [discriminate|] end.
+    inversion H; subst. vframe_tac I.
+  - unfold hard_withdraw in H.
+    repeat match type of H with (if ?c then _ else _) = _ => destruct c; [discriminate|] end.
+    inversion H; subst. vframe_tac I.
+  - unfold sav_withdraw in H.
+    repeat match type of H with (if ?c then _ else _) = _ => destruct c; [discriminate|] end.
+    inversion H; subst. vframe_tac I.
+  - unfold swap_withdraw in H.
+    destruct (negb deadline_ok); [discriminate|].
+    destruct (swap_shares s a pool <=? 0); [discriminate|].
+    destruct (swap_shares s a pool <? shares); [discriminate|].
+    destruct (swap_pools s pool) as [[ra rb] tot].
+    repeat match type of H with (if ?c then _ else _) = _ => destruct c; [discriminate|] end.
+    inversion H; subst. vframe_tac I.
+  - unfold earn_withdraw in H.
+    repeat match type of H with (if ?c then _ else _) = _ => destruct c; [discriminate|] end.
+    destruct (strategy_withdraw e s d wamount) as [s1|] eqn:SW; [|discriminate].
+    destruct (strategy_withdraw_vframe _ _ _ _ _ SW) as [F2 [F4 [F5 F6]]].
+    inversion H; subst. apply (vinv_frame _ _ _ I); cbn; assumption.
+Qed.
+
+(* closing the proposals of committee c keeps the invariant for any new value
+   of that committee (its remaining proposals are the other committees') *)
+Lemma vinv_close : forall e s s' c,
+  VInv e s ->
+  (forall c', c' <> c -> find_com s' c' = find_com s c') ->
+  proposals s' = closed_props s c -> votes s' = closed_votes s c -> next_pid s' = next_pid s ->
+  VInv e s'.
+Proof.
+  intros e s s' c [I2 I3 I4] Hf Hp Hv Hn. constructor.
+  - intros pid a vt H. rewrite Hv in H. unfold closed_votes in H.
+    destruct (proposals s pid) as [[c' dl]|] eqn:P.
+    + destruct (Nat.eqb c' c) eqn:E; [discriminate|].
+      destruct (I2 pid a vt H) as [c0 [dl0 [x [P0 [F M]]]]].
+      rewrite P in P0. inversion P0; subst c0 dl0.
+      exists c', dl, x. split; [|split].
+      * rewrite Hp. unfold closed_props. rewrite P, E. reflexivity.
+      * rewrite Hf; [exact F|]. apply Nat.eqb_neq. exact E.
+      * exact M.
+    + destruct (I2 pid a vt H) as [c0 [dl0 [x [P0 _]]]]. rewrite P in P0. discriminate.
+  - intros pid p H. rewrite Hp in H. unfold closed_props in H. rewrite Hn.
+    destruct (proposals s pid) as [[c' dl]|] eqn:P; [|discriminate]. exact (I3 pid _ P).
+  - intros pid a H. rewrite Hn in H. rewrite Hv. unfold closed_votes.
+    rewrite (I4 pid a H). destruct (proposals s pid) as [[c' dl]|]; [|reflexivity].
+    destruct (Nat.eqb c' c); reflexivity.
+Qed.
+
+Theorem admin_step_vinv : forall e s a s' out, VInv e s -> admin_step e s a = Ok s' out -> VInv e s'.
+Proof.
+  intros e s a s' out I H. destruct a; cbn [admin_step] in H.
+  - destruct (set_oracles_frame _ _ _ _ _ H) as [_ [_ [_ [C [_ [P [N V]]]]]]].
+    exact (vinv_frame _ _ _ I C P N V).
+  - unfold set_owner in H. destruct (find_asset s d) as [x|]; [|inversion H; subst; exact I].
+    destruct (mem a (as_blocked x)); [discriminate|]. inversion H; subst. vframe_tac I.
+  - unfold set_deputy in H. inversion H; subst. vframe_tac I.
+  - destruct (set_members_lookup _ _ _ _ _ H) as [_ [F [P [V [N _]]]]].
+    exact (vinv_close _ _ _ c I F P V N).
+  - destruct (del_committee_lookup _ _ _ _ H) as [_ [F [P [V [N _]]]]].
+    exact (vinv_close _ _ _ c I F P V N).
+Qed.
+
+Lemma hstep'_vinv : forall e s h, VInv e s -> VInv e (hstep' e s h).
+Proof.
+  intros e s h I. unfold hstep'. destruct (hstep e s h) as [s' out| |] eqn:E; auto.
+  destruct h; cbn [hstep] in E.
+  - exact (step_vinv _ _ _ _ _ I E).
+  - exact (admin_step_vinv _ _ _ _ _ I E).
+Qed.
+
+Theorem hrun_vinv : forall e hs s, VInv e s -> VInv e (hrun e s hs).
+Proof.
+  intros e hs. induction hs as [|h r IH]; intros s I; [exact I|].
+  cbn [hrun fold_left]. apply IH. apply hstep'_vinv. exact I.
+Qed.
+
+(* over every history with changes of the member lists: every recorded vote on
+   a member-committee proposal is a yes vote of a CURRENT member *)
+Theorem member_votes_from_current_members_all_histories : forall e hs s pid a vt,
+  VInv e s -> votes (hrun e s hs) pid a = Some vt ->
+  exists c dl x, proposals (hrun e s hs) pid = Some (c, dl) /\ find_com (hrun e s hs) c = Some x /\
+    (cm_member_type x = true -> In a (cm_members x) /\ vt = 1%nat).
+Proof. intros e hs s pid a vt I. exact (vinv_votes _ _ (hrun_vinv e hs s I) pid a vt). Qed.
+
+Theorem VInv_vinv_b : forall e s, VInv e s -> vinv_b e s = true.
+Proof.
+  intros e s [I2 I3 I4]. unfold vinv_b.
+  apply forallb_forall. intros pid _. apply forallb_forall. intros a _. unfold vote_ok.
+  destruct (votes s pid a) as [vt|] eqn:V; [|reflexivity].
+  destruct (I2 pid a vt V) as [c [dl [x [P [F M]]]]]. rewrite P, F.
+  destruct (cm_member_type x); [|reflexivity]. cbn [negb orb].
+  destruct (M eq_refl) as [M1 M2]. subst vt. apply mem_In in M1. rewrite M1. reflexivity.
+Qed.
+
+(** ** Swaps over histories with changes of the deputy *)
+
+Ltac crush_step H :=
+  repeat (match type of H with
+          | match ?x with _ => _ end = _ => destruct x eqn:?
+          end; try discriminate).
+
+(* a message records at most one swap, labelled incoming only if its sender is
+   the deputy of the state the message ran in *)
+Lemma step_swaps : forall e s o s' out, step e s o = Ok s' out ->
+  swaps s' = swaps s \/
+  exists w, swaps s' = w :: swaps s /\
+    (sw_incoming w = true -> exists x, find_b3 s (sw_denom w) = Some x /\ sw_sender w = b3_deputy x).
+Proof.
+  intros e s o s' out H.
+  destruct (match o with CreateSwap _ _ _ _ => true | _ => false end) eqn:K.
+  - destruct o; try discriminate. right.
+    destruct (create_swap_single_coin _ _ _ _ _ _ _ _ H) as [d [amt Ea]]. subst amount.
+    destruct (create_swap_direction _ _ _ _ _ _ _ _ _ H) as [x [F [[Ea [_ Es]]|[_ [_ Es]]]]].
+    + exists (mkSwap a rcp d amt true). split; [exact Es|]. intros _. exists x. cbn. auto.
+    + exists (mkSwap a rcp d amt false). split; [exact Es|]. cbn. discriminate.
+  - left. destruct o; try discriminate; cbn [step] in H;
+      unfold post_price, issue, redeem, block, unblock, set_pause, submit, vote, update_params,
+             cdp_draw, cdp_repay, cdp_withdraw, hard_withdraw, sav_withdraw, swap_withdraw, earn_withdraw in H;
+      crush_step H; inversion H; subst; try reflexivity.
+    match goal with
+    | SW : strategy_withdraw _ _ _ _ = Some _ |- _ =>
+        destruct (strategy_withdraw_frame _ _ _ _ _ SW) as [_ [_ [_ [Sw _]]]]; cbn; exact Sw
+    end.
+Qed.
+
+Lemma admin_step_swaps : forall e s a s' out, admin_step e s a = Ok s' out -> swaps s' = swaps s.
+Proof.
+  intros e s a s' out H. destruct a; cbn [admin_step] in H;
+    unfold set_oracles, set_owner, set_deputy, set_members, del_committee in H;
+    crush_step H; inversion H; subst; reflexivity.
+Qed.
+
+(* one step of any history records at most one swap, labelled by the deputy of
+   the state the message ran in; a change of the deputy records nothing and
+   re-labels nothing *)
+Theorem hstep_new_swap : forall e s h,
+  swaps (hstep' e s h) = swaps s \/
+  exists w, swaps (hstep' e s h) = w :: swaps s /\
+    (sw_incoming w = true -> exists x, find_b3 s (sw_denom w) = Some x /\ sw_sender w = b3_deputy x).
+Proof.
+  intros e s h. unfold hstep'. destruct (hstep e s h) as [s' out| |] eqn:E; auto.
+  destruct h as [o|a]; cbn [hstep] in E.
+  - exact (step_swaps _ _ _ _ _ E).
+  - left. exact (admin_step_swaps _ _ _ _ _ E).
+Qed.
+
+(* over every history: a swap recorded as incoming was sent by the account that
+   was the asset's deputy when the swap was created *)
+Theorem incoming_swaps_from_deputy_of_their_time : forall e hs s w,
+  In w (swaps (hrun e s hs)) ->
+  In w (swaps s) \/
+  exists pre h post, hs = pre ++ h :: post /\
+    (sw_incoming w = true ->
+     exists x, find_b3 (hrun e s pre) (sw_denom w) = Some x /\ sw_sender w = b3_deputy x).
+Proof.
+  intros e hs. induction hs as [|h r IH]; intros s w Hw.
+  - left. exact Hw.
+  - cbn [hrun fold_left] in Hw. fold (hrun e (hstep' e s h) r) in Hw.
+    destruct (IH _ _ Hw) as [Hin|[pre [h' [post [Eq Hd]]]]].
+    + destruct (hstep_new_swap e s h) as [Es|[w0 [Es Hd]]].
+      * left. rewrite Es in Hin. exact Hin.
+      * rewrite Es in Hin. destruct Hin as [Hin|Hin].
+        -- subst w0. right. exists [], h, r. split; [reflexivity|]. exact Hd.
+        -- left. exact Hin.
+    + right. exists (h :: pre), h', post. split; [rewrite Eq; reflexivity|]. exact Hd.
+Qed.
